@@ -47,6 +47,8 @@ def check(ctx, replay=None):
         dict(scope="boundary", mc=["DecisionOK"], mc_maxskips=[255], kw=dict(W=15, NSys=1), stride=1, concs=10 if th else 5, expand=1),
     ]
     # a single-condition entry next to another single-condition entry of the same syscall and argument (alternatives): each keeps its own relation
+    # entries of one syscall that are not adjacent (A, B, A): each single-condition entry keeps its relation wherever it stands in the group
+    plan.append(dict(scope="merge", mc=None, mc_maxskips=[255], stride=1 if th else 3, concs=2, expand=2))
     plan.append(dict(scope="mergeops", mc=["DecisionOK"], mc_maxskips=[255], stride=1 if th else 2, concs=3 if th else 2, expand=2))
     if th:
         # W = 3: every operand x every actual value (64 x 64)
